@@ -36,6 +36,17 @@ CHECKS = {
   text="Exploration: CiderGrids and pyscf Grids are built for generated (molecule, level | atom_grid form, prune scheme, lmax, alignment, sort, radial/Becke scheme) configurations and call histories (prune_by_density_ sequences, rebuild, relevel); sorted (x,y,z,w) tables must be bitwise equal, idx_map injective, coordinates reconstructed from the indexer tables alone equal the sorted grid (1e-13), weights exact, padding weights exactly zero, Ylm Gram matrices identity up to the supported degree (1e-12) and zero above. lmax < 1 must be rejected (ASan worker).",
   note="pyscf's grid generator is the reference by definition; Lebedev degree table from pyscf.",
   ref="5/C19"),
+
+ "C06": dict(
+  technique="runtime monitoring: metamorphic differential execution on rigidly moved / relabelled molecules with the density matrix transported by a harness-built, per-case validated AO representation",
+  text="Exploration: for every feature family the same synthetic model is evaluated on a jittered C1 molecule and on its image under a translation, octahedral operations (all 48 enumerated over the thorough run, improper ones included) composed with translations, an atom permutation and a Haar rotation; E' = E, vmat' = U vmat U^T (1e-8 x scale; floor 4e-11) and the raw per-point features at mapped grid points (1e-7) are compared; for Haar rotations the energy difference is bounded per grid level and may not grow with the level.",
+  note="U(g) is built from pyscf AO evaluations and validated against pyscf overlap/kinetic matrices per case (else inconclusive); pyscf's grid generator trusted to be covariant.",
+  ref="5/C06"),
+ "C16": dict(
+  technique="runtime monitoring: recorded training histories (store / add / reset / fit orders) checked against a dense reference solver written from docs/theory/gp.rst",
+  text="Exploration: synthetic training sets (3-8 systems, nspin 1/2, reactions with counts, noises, weights, units, orbital entries) are driven through MOLGP / MOLGP2 in random call orders; stored covariances, labels and noises are compared with direct sums, the fitted weights/predictions/residuals with a refined-LU dense reference of the documented linear system (tolerances in rounding-propagation bound units), order/reset invariance up to the induced permutation, and compute_likelihood with the Gaussian log marginal likelihood.",
+  note="Hyper-parameter optimisation not covered; configurations that raise before any fit exists are recorded as observations.",
+  ref="5/C16"),
 }
 
 NOT_YET = "check not implemented yet (framework under construction)"
